@@ -379,6 +379,62 @@ func TestAtomicity(t *testing.T) {
 		os.RemoveAll(dir)
 	}
 
+	// ---- (4) a Set that outlives its operation timeout (WithTimeout): whatever Set returns and whenever the writing ends, a Get
+	// — right away and while the write may still be going on — returns the previous value, the new one in full, or nothing ----
+	for _, enc := range []bool{false, true} {
+		for _, prev := range []bool{false, true} {
+			for _, d := range []time.Duration{time.Nanosecond, 200 * time.Microsecond, 2 * time.Millisecond, 8 * time.Millisecond} {
+				dir, _ := os.MkdirTemp("", "verif-timeout-")
+				fo := []fscache.Option{fscache.WithBaseDir(dir)}
+				if enc {
+					fo = append(fo, fscache.WithEncryption(encKey))
+				}
+				key := "http://a.test/x#timeout"
+				old := valueN('O', 3000)
+				big := valueN('B', 6<<20)
+				if prev {
+					if c0, err := fscache.Open("verif", fo...); err == nil {
+						_ = c0.Set(key, old)
+					}
+				}
+				slow, err := fscache.Open("verif", append(fo, fscache.WithTimeout(d))...)
+				reader, err2 := fscache.Open("verif", fo...)
+				if err != nil || err2 != nil {
+					add("TIMEOUTCUT enc=%v prev=%v timeout=%v harness: cannot open SKIP", enc, prev, d)
+					os.RemoveAll(dir)
+					continue
+				}
+				setErr := slow.Set(key, big)
+				bad := ""
+				seen := map[string]int{}
+				for i := 0; i < 40 && bad == ""; i++ {
+					got, gerr := reader.Get(key)
+					switch {
+					case gerr != nil && !prev:
+						seen["absent"]++
+					case gerr != nil:
+						// with a previous value the key is never absent; an authentication failure of a partial file counts too
+						bad = fmt.Sprintf("get failed although a previous value exists: %v", gerr)
+					case bytes.Equal(got, big):
+						seen["new"]++
+					case prev && bytes.Equal(got, old):
+						seen["old"]++
+					default:
+						bad = fmt.Sprintf("get returned %d bytes that are neither the previous value (%d) nor the new one (%d)", len(got), len(old), len(big))
+					}
+					time.Sleep(3 * time.Millisecond)
+				}
+				v := "ok"
+				if bad != "" {
+					v = "BAD"
+				}
+				add("TIMEOUTCUT enc=%v prev=%v timeout=%v set_timed_out=%v seen=%v problem=%q %s", enc, prev, d, setErr != nil, seen, bad, v)
+				time.Sleep(30 * time.Millisecond)
+				os.RemoveAll(dir)
+			}
+		}
+	}
+
 	sort.SliceStable(lines, func(i, j int) bool { return false })
 	if err := writeLines(filepath.Join(out, "atomic.txt"), lines); err != nil {
 		t.Fatal(err)
